@@ -171,7 +171,10 @@ def convert_to_lut(op, lut_values, lut_name):
     assert ifm.dtype == ofm.dtype
     lut_tensor = create_lut_tensor(op.name + "_values", lut_values, ofm.dtype)
     op.set_activation_lut(lut_tensor)
+    # The shapes of the op can differ from those of its tensors (a bypassed reshape), keep them
+    ifm_shape, ofm_shape = op.ifm_shapes[0], op.ofm_shapes[0]
     op.set_ifm_ofm_shapes()
+    op.ifm_shapes[0], op.ofm_shapes[0] = ifm_shape, ofm_shape
     DebugDatabase.add_optimised(op, op)
     return op
 
